@@ -670,9 +670,6 @@ func c08SemX(r *h.Result, rng *h.Rng, n int) error {
 			cases[i]["class"] = class
 			r.Case("semx:"+fmt.Sprint(cases[i]["query"], cases[i]["ctx"], i), true)
 			key := "C08/sql-differs-from-direct-reading-x:" + strings.Join(f, ",")
-			if isIn("agg-without-grouping", f) {
-				key = "C08/agg-without-grouping-keeps-streams"
-			}
 			if proved {
 				// cannot happen while the theorem and the driver are built from the same definitions
 				key = "C08/proved-class-differs:" + class
